@@ -14,6 +14,8 @@ pub struct Cfg {
     pub sweep: bool,
     pub fill: bool,
     pub rdp: bool,
+    /// `wk=fresh`: a new waker for every poll, only the latest one wakes.
+    pub fresh_wakers: bool,
     pub writer: WriterCfg,
 }
 
@@ -214,6 +216,7 @@ fn default_cfg() -> Cfg {
         sweep: false,
         fill: false,
         rdp: false,
+        fresh_wakers: false,
         writer: WriterCfg {
             pend: false,
             one: false,
@@ -255,6 +258,13 @@ fn parse_cfg(line: &str) -> Option<Cfg> {
                 }
             }
             "rdp" => cfg.rdp = parse_bool(val)?,
+            "wk" => {
+                cfg.fresh_wakers = match val {
+                    "same" => false,
+                    "fresh" => true,
+                    _ => return None,
+                }
+            }
             "wr" => {
                 (cfg.writer.pend, cfg.writer.one) = match val {
                     "all" => (false, false),
